@@ -334,6 +334,31 @@ def make_reg(delegated=False):
         if mtype != "bind":
             it.ctx.prove(it.truth(g.fields["bound"]), f"post:C09:bind-before-{mtype}",
                          {"kind": "post", "src": "bind is sent before any other message on each connection"})
+        # the server can only act on a command that names what it is about (the environment contract E2 answers `claimed`,
+        # `released`, `closed` ... to well-formed commands): claim / release carry the nameplate, open / close the mailbox id
+        # this client holds - on every connection, i.e. also when the command is re-issued after a reconnect
+        objs_ = it.reg.cluster_engine._objs
+
+        def names(field_key, holder, attr, oblig, what):
+            have = isinstance(d, VDict) and field_key in d.d
+            ok = z3.BoolVal(False)
+            if have:
+                sent = it.force(d.d[field_key])
+                cur = objs_[holder].fields[attr]
+                curv = cur.inner if isinstance(cur, VOpt) else cur
+                isn = cur.isnone if isinstance(cur, VOpt) else z3.BoolVal(False)
+                if isinstance(sent, VOpt):
+                    ok = z3.And(z3.Not(sent.isnone), z3.Not(isn), sent.inner.z == curv.z)
+                elif isinstance(sent, VStr) and isinstance(curv, VStr):
+                    ok = z3.And(z3.Not(isn), sent.z == curv.z)
+            it.ctx.prove(ok, oblig, {"kind": "post", "src": what})
+
+        if mtype in ("claim", "release"):
+            names("nameplate", "N", "_nameplate", f"post:C09:{mtype}-names-the-nameplate",
+                  f"the `{mtype}` command carries the nameplate this client holds")
+        if mtype in ("open", "close"):
+            names("mailbox", "M", "_mailbox", f"post:{'C08' if mtype == 'close' else 'C09'}:{mtype}-names-the-mailbox",
+                  f"the `{mtype}` command carries the id of the mailbox this client holds")
         flags = {"bind": ["bound"], "claim": ["claim_sent", "claim_owed"], "release": ["release_sent", "release_owed"],
                  "open": ["open_sent"], "close": ["close_sent", "close_owed"], "allocate": ["allocate_sent", "allocate_owed"],
                  "list": ["list_owed"]}.get(mtype, [])
